@@ -14,6 +14,7 @@
 """
 import os, sys, re, json, subprocess, tempfile, shutil, time
 ROOT = os.path.normpath(os.path.join(os.path.dirname(os.path.abspath(__file__)), '..'))
+OUT = os.environ.get('VERIF_OUT', ROOT)      # evidence/ and replays/ go here (seed sweeps redirect them)
 REPO = os.environ.get('VERIF_REPO', '/repo')
 INC = REPO + '/source/include'
 
@@ -197,7 +198,7 @@ STDS = ['c++11', 'c++14', 'c++17', 'c++20', 'c++2b']
 def run(tier='quick', replay_dir=None):
     """returns {'obligations', 'discharged', 'violations': [{'what', 'replay', 'reproduced'}], 'undecided': [...], 'rows': [...], 'solver_s'}"""
     t0 = time.time()
-    replay_dir = replay_dir or os.path.join(ROOT, 'replays')
+    replay_dir = replay_dir or os.path.join(OUT, 'replays')
     out = {'obligations': 0, 'discharged': 0, 'violations': [], 'undecided': [], 'rows': [], 'solver_s': 0.0}
     try:
         rows = probe()
